@@ -545,7 +545,7 @@ func (fr *Frame) instr(in ssa.Instruction, b *ssa.BasicBlock, st *State) *State 
 		ft := pointee(x.Type())
 		switch kindOf(ft) {
 		case KStruct, KArray:
-			fr.vals[x] = Val{T: x.Type(), S: sx(sym(fc.embFn(stT, x.Field)), base.S)}
+			fr.vals[x] = Val{T: x.Type(), S: fc.embRef(stT, x.Field, base.S)}
 		default:
 			n := "fptr!" + structName(stT) + "." + stT.Underlying().(*types.Struct).Field(x.Field).Name()
 			fc.declareFun(n, "(Int) Int")
@@ -584,7 +584,7 @@ func (fr *Frame) instr(in ssa.Instruction, b *ssa.BasicBlock, st *State) *State 
 		fr.addrs[x] = a
 		switch kindOf(et) {
 		case KStruct, KArray:
-			fr.vals[x] = Val{T: x.Type(), S: sx(sym(fc.elemFn(et)), a.Obj, a.Idx)}
+			fr.vals[x] = Val{T: x.Type(), S: fc.elemRef(et, a.Obj, a.Idx)}
 		default:
 			n := "eptr!" + typeKey(et)
 			fc.declareFun(n, "(Int "+m.idxSort()+") Int")
@@ -1255,17 +1255,17 @@ func (fr *Frame) selectOp(x *ssa.Select, b *ssa.BasicBlock, st *State) *State {
 	}
 	fc.assume(sImp(fr.reach[b], sAnd(m.cmp(token.LEQ, m.intConstI(lo, tInt), idx, tInt), m.cmp(token.LSS, idx, m.intConstI(int64(len(x.States)), tInt), tInt))), "select index range")
 	// ghost: a receive that fires on a channel nobody sends on means the channel is closed
-	fc.regArr("G!chan.closed", "(Array Int Bool)")
+	fc.regArr("G!chanClosed", "(Array Int Bool)")
 	for i, s := range x.States {
 		if s.Dir == types.RecvOnly {
 			ch := fr.val(s.Chan, st)
 			fired := sEq(idx, m.intConstI(int64(i), tInt))
-			closed := sx("select", st.get("G!chan.closed"), ch.S)
+			closed := sx("select", st.get("G!chanClosed"), ch.S)
 			// known-closed channel: receive is ready, so default is not taken (single-case select)
 			if len(x.States) == 1 && !x.Blocking {
 				fc.assume(sImp(sAnd(fr.reach[b], closed), fired), "receive on a closed channel is always ready")
 			}
-			st2 := st.store("G!chan.closed", sx("store", st.get("G!chan.closed"), ch.S, sOr(closed, fired)))
+			st2 := st.store("G!chanClosed", sx("store", st.get("G!chanClosed"), ch.S, sOr(closed, fired)))
 			st = st2
 			fc.note("select: a ready receive on the close channel is taken to mean the channel is closed (nobody sends on it)")
 		}
@@ -1305,9 +1305,9 @@ func (fr *Frame) lockHeld(gd Guard, obj string, b *ssa.BasicBlock, in ssa.Instru
 	s := stT.Underlying().(*types.Struct)
 	for i := 0; i < s.NumFields(); i++ {
 		if s.Field(i).Name() == gd.Lock {
-			lockRef := sx(sym(fc.embFn(stT, i)), obj)
-			fc.regArr("G!mu.held", "(Array Int Int)")
-			held := sx("select", st.get("G!mu.held"), lockRef)
+			lockRef := fc.embRef(stT, i, obj)
+			fc.regArr("G!muHeld", "(Array Int Int)")
+			held := sx("select", st.get("G!muHeld"), lockRef)
 			cond := sx(">=", held, "1") // 1 = read-locked, 2 = write-locked
 			if write {
 				cond = sEq(held, "2")
